@@ -119,6 +119,13 @@ def step (st : St) (line : String) : St × List String :=
       | .ok l => (st, [s!"ok {showSubnets l} layer={layer}"])
       | .error e => (st, [s!"{showExc e} layer={layer}"])
     | _, _ => (st, ["bad-op"])
+  | "file" :: s :: idna =>
+    match strOfHex s, parseIdna idna with
+    | some s, some idna =>
+      match parseSubnetportFile (mkEnv st idna) s with
+      | .ok ls => (st, ["ok " ++ (if ls.isEmpty then "-" else "|".intercalate (ls.map showSubnets))])
+      | .error e => (st, [showExc e])
+    | _, _ => (st, ["bad-op"])
   | "ipp" :: s :: idna =>
     match strOfHex s, parseIdna idna with
     | some s, some idna =>
